@@ -18,8 +18,8 @@ class Scalar (α : Type) extends Add α, Sub α, Mul α, Div α, Neg α, LT α, 
 
 attribute [instance] Scalar.decLt Scalar.decLe
 
-instance {α} [Scalar α] {n : Nat} : OfNat α n := ⟨Scalar.ofNat n⟩
-instance {α} [Scalar α] : OfScientific α := ⟨Scalar.ofSci⟩
+instance Scalar.instOfNat {α} [Scalar α] {n : Nat} : OfNat α n := ⟨Scalar.ofNat n⟩
+instance Scalar.instOfScientific {α} [Scalar α] : OfScientific α := ⟨Scalar.ofSci⟩
 instance {α} [Scalar α] : Inhabited α := ⟨Scalar.ofNat 0⟩
 instance {α} [Scalar α] : BEq α := ⟨Scalar.beq⟩
 
